@@ -1,5 +1,205 @@
-(** C16 proofs (under construction). *)
-From Coq Require Import List Arith Bool Lia.
-From Verif Require Import C16.Spec C16.Model.
+(** C16: the property lemmas, from the invariants of Inv*.v, Tracer.v and Dead.v. *)
+From Coq Require Import List Arith NArith Bool Lia.
+From Verif Require Import C16.Spec C16.Hist C16.Model C16.Inv C16.Inv2 C16.Inv3 C16.Inv4 C16.Tracer C16.Dead.
 Import ListNotations.
-Lemma stub_true : True. Proof. exact I. Qed.
+
+(** ** Each transition system only logs its own events *)
+Definition is_tracer_ev (e : ev) : bool :=
+  match e with
+  | ETInstallCall | ETInstallRet | ETracerRet _ | ESpanCall _ _ | ESpanRet _ | ESdkSpan _ => true
+  | _ => false
+  end.
+
+Lemma step_meter_only prog s t s' : Forall (fun e => is_tracer_ev e = false) (hist s) ->
+  step false prog s t = Some s' -> Forall (fun e => is_tracer_ev e = false) (hist s').
+Proof.
+  intros H Hs. inv_step Hs; simp_st; repeat (apply Forall_app; split); try assumption;
+    repeat constructor.
+Qed.
+
+Lemma run_meter_only prog sch : forall s0 s, Forall (fun e => is_tracer_ev e = false) (hist s0) ->
+  run false prog s0 sch = Some s -> Forall (fun e => is_tracer_ev e = false) (hist s).
+Proof.
+  induction sch as [|t r IH]; cbn; intros s0 s H0 Hr.
+  - inversion Hr; subst. exact H0.
+  - destruct (step false prog s0 t) eqn:Hs; [|discriminate]. eapply IH; [|exact Hr]. eapply step_meter_only; eassumption.
+Qed.
+
+Lemma tstep_tracer_only prog s t s' : Forall (fun e => is_tracer_ev e = true) (thist s) ->
+  tstep prog s t = Some s' -> Forall (fun e => is_tracer_ev e = true) (thist s').
+Proof.
+  intros H Hs. inv_tstep Hs; simp_tst; repeat (apply Forall_app; split); try assumption;
+    repeat constructor.
+Qed.
+
+Lemma trun_tracer_only prog sch : forall s0 s, Forall (fun e => is_tracer_ev e = true) (thist s0) ->
+  trun prog s0 sch = Some s -> Forall (fun e => is_tracer_ev e = true) (thist s).
+Proof.
+  induction sch as [|t r IH]; cbn; intros s0 s H0 Hr.
+  - inversion Hr; subst. exact H0.
+  - destruct (tstep prog s0 t) eqn:Hs; [|discriminate]. eapply IH; [|exact Hr]. eapply tstep_tracer_only; eassumption.
+Qed.
+
+Lemma no_tracer_count e h : is_tracer_ev e = true -> Forall (fun x => is_tracer_ev x = false) h -> count e h = 0.
+Proof.
+  intros He H. induction H as [|x h Hx Hh IH]; [reflexivity|].
+  unfold count in *. cbn [filter]. rewrite ev_beq_neq; [exact IH|]. intro; subst. congruence.
+Qed.
+
+Lemma no_meter_count e h : is_tracer_ev e = false -> Forall (fun x => is_tracer_ev x = true) h -> count e h = 0.
+Proof.
+  intros He H. induction H as [|x h Hx Hh IH]; [reflexivity|].
+  unfold count in *. cbn [filter]. rewrite ev_beq_neq; [exact IH|]. intro; subst. congruence.
+Qed.
+
+Lemma count0_inb e h : count e h = 0 -> inb e h = false.
+Proof. intro H. rewrite inb_count, H. reflexivity. Qed.
+
+Lemma inb_after_false e x h : inb x h = false -> inb x (after e h) = false.
+Proof. intro H. destruct (inb x (after e h)) eqn:E; [|reflexivity]. apply inb_after_sub in E. congruence. Qed.
+
+(** The clauses about one registration in plain words. *)
+Lemma reg_ok_plain r h : reg_ok r h = true ->
+  count (ESdkReg r) h <= 1 /\ count (ESdkUnreg r) h <= count (ESdkReg r) h /\
+  (In (ERegRet r) h -> In EInstallRet h -> ~ In (EUnregCall r) h ->
+   count (ESdkReg r) h = 1 /\ count (ESdkUnreg r) h = 0) /\
+  (In (EUnregRet r) (before EInstallCall h) -> count (ESdkReg r) h = 0) /\
+  (In (EUnregRet r) h ->
+   count (ESdkUnreg r) h = count (ESdkReg r) h /\
+   count (ESdkReg r) (after (EUnregRet r) h) = 0 /\ count (ESdkUnreg r) (after (EUnregRet r) h) = 0).
+Proof.
+  unfold reg_ok, reg_at_most_once, reg_exactly_once, unreg_before_install_never, unreg_not_leaked.
+  rewrite !andb_true_iff. intros [[[[A B] C] D] E].
+  apply Nat.leb_le in A. apply Nat.leb_le in B. repeat split; try assumption.
+  - apply inb_In in H. apply inb_In in H0. rewrite H, H0 in C.
+    destruct (inb (EUnregCall r) h) eqn:X; [apply inb_In in X; contradiction|]. cbn in C.
+    apply andb_true_iff in C as [C _]. now apply Nat.eqb_eq.
+  - apply inb_In in H. apply inb_In in H0. rewrite H, H0 in C.
+    destruct (inb (EUnregCall r) h) eqn:X; [apply inb_In in X; contradiction|]. cbn in C.
+    apply andb_true_iff in C as [_ C]. now apply Nat.eqb_eq.
+  - intro H. apply inb_In in H. rewrite H in D. cbn in D. now apply Nat.eqb_eq.
+  - apply inb_In in H. rewrite H in E. cbn in E. rewrite !andb_true_iff in E.
+    destruct E as [[E _] _]. now apply Nat.eqb_eq.
+  - apply inb_In in H. rewrite H in E. cbn in E. rewrite !andb_true_iff in E.
+    destruct E as [[_ E] _]. now apply Nat.eqb_eq.
+  - apply inb_In in H. rewrite H in E. cbn in E. rewrite !andb_true_iff in E.
+    destruct E as [_ E]. now apply Nat.eqb_eq.
+Qed.
+
+(** ** Meter side *)
+Section Meter.
+  Variable prog : nat -> op.
+  Variable sch : list nat.
+  Variable s : st.
+  Hypothesis Hrun : run false prog init sch = Some s.
+
+  Let HF : Full s := reachable_full prog sch s Hrun.
+
+  Lemma m_reg_ok_nat r : reg_ok #r (hist s) = true.
+  Proof.
+    destruct HF as [[HI [HJ HK]] HB HL HM HN].
+    pose proof (r_tab _ HK r) as Ht. pose proof (h_reg _ HL r) as Hr. pose proof (h_unreg _ HL r) as Hu.
+    unfold reg_ok, reg_at_most_once, reg_exactly_once, unreg_before_install_never, unreg_not_leaked.
+    rewrite Hr, Hu. repeat (apply andb_true_iff; split).
+    - apply Nat.leb_le. destruct (unreg s r); cbn in Ht; lia.
+    - apply Nat.leb_le. destruct (unreg s r); cbn in Ht; lia.
+    - destruct (inb (ERegRet #r) (hist s)) eqn:E1; [|reflexivity].
+      destruct (inb EInstallRet (hist s)) eqn:E2; [|reflexivity].
+      destruct (inb (EUnregCall #r) (hist s)) eqn:E3; [reflexivity|]. cbn.
+      pose proof (h_regret _ HL r E1) as Hnn. pose proof (h_iret _ HL E2) as Hd.
+      assert (Hnil : unreg s r <> RNil /\ unreg s r <> RDirectNil).
+      { split; intro X; rewrite (h_nil _ HL r) in E3 by auto; discriminate. }
+      destruct (unreg s r) eqn:Eu; cbn in Ht; try tauto;
+        try (destruct Ht as [-> ->]; reflexivity).
+      exfalso. assert (HInv : Inv s) by (split; [|split]; assumption).
+      destruct (local_after_done s r k HInv Hd Eu) as [u Hu'].
+      rewrite (h_upc _ HL u r) in E3; [discriminate | rewrite Hu'; reflexivity].
+    - destruct (inb (EUnregRet #r) (before EInstallCall (hist s))) eqn:E; [|reflexivity]. cbn.
+      destruct (h_early _ HM r E) as [_ X]. rewrite X. reflexivity.
+    - destruct (inb (EUnregRet #r) (hist s)) eqn:E; [|reflexivity]. cbn.
+      rewrite (h_after_reg _ HM r), (h_after_unreg _ HM r). cbn. rewrite !andb_true_r.
+      apply Nat.eqb_eq. destruct (h_unregret _ HL r E) as [X|X]; rewrite X in Ht; cbn in Ht; lia.
+  Qed.
+
+  Lemma m_callbacks : CallbacksExactlyOnce (hist s).
+  Proof. intro r. rewrite <- (N2Nat.id r). apply m_reg_ok_nat. Qed.
+
+  Lemma m_forwarding : ForwardingAfterInstall (hist s).
+  Proof.
+    destruct HF as [[HI [HJ HK]] HB HL HM HN].
+    pose proof (run_meter_only prog sch init s (Forall_nil _) Hrun) as Honly.
+    repeat split.
+    - intro n. rewrite <- (N2Nat.id n). unfold rec_at_most_once. apply Nat.leb_le. apply (g_once _ HN).
+    - intros i n. rewrite <- (N2Nat.id n), <- (N2Nat.id i). unfold rec_forwarded.
+      destruct (inb (ERecCall _ _) (after EInstallRet (hist s))) eqn:E1; [|reflexivity].
+      destruct (inb (ERecRet _) (hist s)) eqn:E2; [|reflexivity]. cbn.
+      rewrite (g_fwd _ HN _ _ E1 E2). reflexivity.
+    - intro n. unfold span_at_most_once. rewrite (no_tracer_count (ESdkSpan n) _ eq_refl Honly). reflexivity.
+    - intros t n. unfold span_forwarded.
+      rewrite (inb_after_false _ _ _ (count0_inb _ _ (no_tracer_count (ESpanCall t n) _ eq_refl Honly))). reflexivity.
+  Qed.
+
+  Lemma m_spec : Spec (hist s).
+  Proof. split; [apply m_callbacks | apply m_forwarding]. Qed.
+
+  (** State form: once installation has returned every instrument handle forwards. *)
+  Lemma m_forwards_state : inb EInstallRet (hist s) = true ->
+    (forall k, mcreated s k = true -> mdel s k = true) /\ (forall i, ist s i = INone \/ forwards s i = true).
+  Proof.
+    destruct HF as [[HI [HJ HK]] HB HL HM HN]. intro H. apply all_delegated_when_done; [exact HJ|].
+    apply (h_iret _ HL H).
+  Qed.
+
+  Lemma m_no_orphans : inb EInstallRet (hist s) = true ->
+    forall i, inb (EInstRet #i) (hist s) = true -> forwards s i = true.
+  Proof.
+    intros H i Hi. destruct (m_forwards_state H) as [_ Hall]. destruct (Hall i) as [X|X]; [|exact X].
+    exfalso. destruct HF as [_ _ HL _ _]. exact (h_instret _ HL i Hi X).
+  Qed.
+
+  Lemma m_deadlock_free : forall t, ~ finished prog s t -> exists u s', step false prog s u = Some s'.
+  Proof.
+    intros t Ht. destruct HF as [[HI _] _ _ _ _]. exact (unfinished_progress prog s t HI Ht).
+  Qed.
+End Meter.
+
+(** ** Tracer side *)
+Section TracerSide.
+  Variable prog : nat -> top.
+  Variable sch : list nat.
+  Variable s : tst.
+  Hypothesis Hrun : trun prog tinit sch = Some s.
+
+  Let HT : TInv s := treachable prog sch s Hrun.
+
+  Lemma t_spec : Spec (thist s).
+  Proof.
+    pose proof (trun_tracer_only prog sch tinit s (Forall_nil _) Hrun) as Honly.
+    assert (Hc : forall e, is_tracer_ev e = false -> count e (thist s) = 0)
+      by (intros e He; apply no_meter_count; assumption).
+    split; [|repeat split].
+    - intro r. unfold reg_ok, reg_at_most_once, reg_exactly_once, unreg_before_install_never, unreg_not_leaked.
+      rewrite (Hc (ESdkReg r) eq_refl), (Hc (ESdkUnreg r) eq_refl).
+      rewrite (count0_inb _ _ (Hc (ERegRet r) eq_refl)), (count0_inb _ _ (Hc (EUnregRet r) eq_refl)).
+      destruct (inb (EUnregRet r) (before EInstallCall (thist s))) eqn:E.
+      + apply inb_before_sub in E. rewrite (count0_inb _ _ (Hc (EUnregRet r) eq_refl)) in E. discriminate.
+      + reflexivity.
+    - intro n. unfold rec_at_most_once. rewrite (Hc (ESdkRec n) eq_refl). reflexivity.
+    - intros i n. unfold rec_forwarded.
+      rewrite (inb_after_false _ _ _ (count0_inb _ _ (Hc (ERecCall i n) eq_refl))). reflexivity.
+    - intro n. rewrite <- (N2Nat.id n). unfold span_at_most_once. apply Nat.leb_le. apply (t_cnt _ HT).
+    - intros t n. rewrite <- (N2Nat.id n), <- (N2Nat.id t). unfold span_forwarded.
+      destruct (inb (ESpanCall _ _) (after ETInstallRet (thist s))) eqn:E1; [|reflexivity].
+      destruct (inb (ESpanRet _) (thist s)) eqn:E2; [|reflexivity]. cbn.
+      rewrite (t_fwd _ HT _ _ E1 E2). reflexivity.
+  Qed.
+
+  Lemma t_forwards_state : inb ETInstallRet (thist s) = true -> forall x, tdel s x = None \/ tdel s x = Some true.
+  Proof.
+    intros H x. pose proof (tall_delegated s HT (t_iret _ HT H) x) as X.
+    destruct (tdel s x) as [[|]|]; auto. congruence.
+  Qed.
+
+  Lemma t_deadlock_free : forall t, ~ tfinished prog s t -> exists u s', tstep prog s u = Some s'.
+  Proof. intros t Ht. exact (tunfinished_progress prog s t HT Ht). Qed.
+End TracerSide.
